@@ -39,7 +39,7 @@ COMPONENTS = {
 }
 ASSUMPTIONS = ["reference = the structure theorems re-implemented by split search (ref/growth.py), agreeing with each other under inverse",
                "Fibonacci bound with F = 1,1,2,3,5,8,... (counts of the sums of 1 and 21)"]
-EXPECTED_PROBES = ["memo_hit_other_basis", "one_shot_stream", "symmetric_image", "memo_flush", "cli", "av_method",
+EXPECTED_PROBES = ["guided_interrupt", "memo_hit_other_basis", "one_shot_stream", "symmetric_image", "memo_flush", "cli", "av_method",
                    "enumeration_crosscheck", "duplicates_or_permuted", "finite_basis", "polynomial_basis", "ins_enc_only_topmost", "interrupted_call", "class_object_address_reused", "empty_basis_or_empty_permutation"]
 
 ENTRY = ["is_finite", "is_polynomial", "is_non_polynomial", "is_insertion_encodable", "rightmost", "maximum",
